@@ -220,15 +220,7 @@ func checkC20(c *Check) {
 	// callback bound to the same id
 	okCB := false
 	var idVal ssa.Value
-	for _, b := range load.Blocks {
-		for _, ins := range b.Instrs {
-			if mu, ok := ins.(*ssa.MapUpdate); ok {
-				if cl, _ := classOfMap(mu.Map); cl == "internal.tlsConfigPool.configs[]" {
-					idVal = mu.Key
-				}
-			}
-		}
-	}
+	idVal = poolInsertKey(load)
 	for _, ci := range callsToFn(load, watch) {
 		for _, a := range ci.Common().Args {
 			mc, isMC := a.(*ssa.MakeClosure)
@@ -650,4 +642,44 @@ func poolInsertIsFinal(c *Check, rule string) {
 		}
 	}
 	c.Obl(n >= 1, rule, "pool-insert-found", P.Pos(load.Pos()), fmt.Sprintf("%d insertion(s) into the pool map", n), "no insertion into the pool map found (anchor lost)")
+}
+
+// poolInsertKey: the key under which fn inserts into the pool map — the key of a map update in fn itself, or
+// the argument bound to the key parameter of a helper of the same package that performs the update
+// (`p.store(id, cfg)` with the lock taken and released inside the helper).
+func poolInsertKey(fn *ssa.Function) ssa.Value {
+	keyIn := func(f *ssa.Function) ssa.Value {
+		var k ssa.Value
+		for _, b := range f.Blocks {
+			for _, ins := range b.Instrs {
+				if mu, ok := ins.(*ssa.MapUpdate); ok {
+					if cl, _ := classOfMap(mu.Map); cl == "internal.tlsConfigPool.configs[]" {
+						k = mu.Key
+					}
+				}
+			}
+		}
+		return k
+	}
+	if k := keyIn(fn); k != nil {
+		return k
+	}
+	for _, ci := range allCalls(fn) {
+		callee := ci.Common().StaticCallee()
+		if callee == nil || callee.Pkg != fn.Pkg || callee == fn {
+			continue
+		}
+		k := keyIn(callee)
+		if k == nil {
+			continue
+		}
+		if p, isP := resolveCell(stripConv(k)).(*ssa.Parameter); isP {
+			for i, q := range callee.Params {
+				if q == p && i < len(ci.Common().Args) {
+					return ci.Common().Args[i]
+				}
+			}
+		}
+	}
+	return nil
 }
